@@ -9,11 +9,19 @@ ALL = ["C%02d" % i for i in range(1, 21)]
 
 # id -> dict(level, technique, text, note, design_ref, engine)
 CHECKS = {
+    "C02": dict(
+        level="exploration",
+        engine="E1-enum",
+        technique="bounded-exhaustive enumeration of data paths (carrier chains with an exact oracle, filter/method/operator compositions over tainted and already-escaped atoms with a taint oracle, the ranked program space against a reference interpreter that tracks a safe bit)",
+        text="Three families under *.html / *.xml names, none using `safe`, `autoescape false` or a markup-returning function. F1: 9 sources (context string holding all of < > \" ' &, two literals, list, map, nested, object, int, list display) flow through every chain of k <= 2 (thorough 3) of 24 identity carriers (set, set block, macro argument, macro closure, call block, caller argument, filter block, include, loop, namespace, if expression, if statement, list/map round trip, first, with, block + self.block(), from-import, import-as, autoescape block, e, string, single-item join, default) in 6 layouts (flat html, flat xml, child block, included template, loop body, macro body) and are printed; the output must equal the source text escaped exactly once. F2: 233 value expressions over tainted strings, captured (already escaped) strings, lists, maps, nested containers, an object, and their concatenations, repetitions, subscripts, slices, displays, dict()/namespace()/cycler() round trips x every registered filter except `safe` (54, discovered at run time, contrib included) in three application forms and 27 pycompat methods x every argument tuple of arity <= 2 over 11 atoms and 16 keyword names, then every ordered filter pair with arity <= 1: no raw < > \" ' may reach the output (tojson: no raw < > '). F3: every depth-1 and depth-2 program of G under t.html over 2 tainted contexts must render without a raw metacharacter and identically to R (which escapes non-safe values on output and marks captures safe), and the include/extends/import corpus must render without a raw metacharacter.",
+        note="Double escaping after a transformation of a captured value (concatenation, slicing, a filter returning a plain string) is counted as an outcome, not judged. 90% of the F2 compositions are argument errors; the histogram in the evidence file shows how many rendered with tainted text.",
+        design_ref="2/C02",
+    ),
     "C06": dict(
         level="exploration",
         engine="E1-enum",
         technique="bounded-exhaustive enumeration of inheritance chains x per-level block assignments x extends forms against an independent block resolver; enumerated include/import/error cases under a wall cap",
-        text="Every chain of 1..3 (thorough 4) templates in which each non-root template gives each block of {a, b nested in a, c} one of {absent, override, super() before, override around super(), super() twice} (125 assignments per level; 3.1e4 chains of length 3 quick, 3.9e6 of length 4 thorough), with and without block c in the root, with the most derived template extending by static name, by a name from the context, inside a taken if and inside a not-taken if, is rendered and compared with a 60-line resolver (most derived definition wins, super() moves a per-block cursor to the next definition, nested block tags render the most derived definition, text outside blocks of extending templates is discarded, super() without a parent fails). 50 hand-written cases cover include placements (top level, loop, macro, block, with, child block), name forms (string, list with missing entries, missing with/without ignore missing, dynamic, non-string), what an import exposes, and the error family (extends/include cycles of length 1..3, double extends, missing parent, super() without parent or outside a block, required blocks, self.block()), each under a 10 s wall cap so a hang counts as a failure.",
+        text="Every chain of 1..3 (thorough 4) templates in which each non-root template gives each block of {a, b nested in a, c} one of {absent, override, super() before, override around super(), super() twice} (125 assignments per level; 3.1e4 chains of length 3 quick, 3.9e6 of length 4 thorough), with and without block c in the root, with the most derived template extending by static name, by a name from the context, inside a taken if and inside a not-taken if, is rendered - directly and, for chains up to length 2 (thorough 3), in 8 further ways (included at top level, in a child block, in a macro called twice, in a loop body; include captured by a set block in a plain host and at the top level of an extending host, there also below a filter block and below a call block) - and compared with a 60-line resolver (most derived definition wins, super() moves a per-block cursor to the next definition, nested block tags render the most derived definition, text outside blocks of extending templates is discarded, super() without a parent fails). 50 hand-written cases cover include placements (top level, loop, macro, block, with, child block), name forms (string, list with missing entries, missing with/without ignore missing, dynamic, non-string), what an import exposes, and the error family (extends/include cycles of length 1..3, double extends, missing parent, super() without parent or outside a block, required blocks, self.block()), each under a 10 s wall cap so a hang counts as a failure.",
         note="The resolver is the trusted base for chains; the fixed cases carry hand-written expectations taken from the documentation. One expectation was corrected during calibration (include of an empty list renders nothing; the property does not demand an error there).",
         design_ref="2/C06",
     ),
@@ -21,7 +29,7 @@ CHECKS = {
         level="exploration",
         engine="E1-enum",
         technique="bounded-exhaustive enumeration of the ranked program space rendered by the engine and by an independent reference interpreter (differential)",
-        text="Every program of the depth-1 and depth-2 generator spaces (1.96e5 programs: all nestings of if/else, for with else / filter / unpacking / recursion, set, set-block, with, macros with defaults and keyword arguments, call blocks, filter blocks, autoescape blocks, break/continue, with leaves that read and write variables inside and outside every scope) under 3 contexts is rendered by the engine and by R, a 500-line tree walker over its own value type implementing the documented rules (scope per construct, clean scope per loop iteration, if-branches and template level persist, macro closures with definition-frame values, argument binding, caller, loop recursion, for-else, loop filters, unpacking, safe-string capture under auto-escaping); outputs must be identical or both must fail. Thorough adds every 41st depth-3 program (3.7e6 evaluations). The loop object clause prints every field in every iteration for 11 sequence kinds (list, tuple, map keys, items, range, lazy iterable, string, reversed, sliced, |list, filtered loop) x lengths 0..4 against directly computed values.",
+        text="Every program of the depth-1 and depth-2 generator spaces (1.96e5 programs: all nestings of if/else, for with else / filter / unpacking / recursion, set, set-block, with, macros with defaults and keyword arguments, call blocks, filter blocks, autoescape blocks, break/continue, with leaves that read and write variables inside and outside every scope) under 3 contexts is rendered by the engine and by R, a 500-line tree walker over its own value type implementing the documented rules (scope per construct, clean scope per loop iteration, if-branches and template level persist, macro closures with definition-frame values, argument binding, caller, loop recursion, for-else, loop filters, unpacking, safe-string capture under auto-escaping); outputs must be identical or both must fail. Thorough adds every 41st depth-3 program (3.7e6 evaluations). A closure family (832 programs) assigns a name inside each of 13 enclosing constructs (if/else arms taken and not, for/else with 0 or 1 iterations, with, filter, set block, autoescape, nested ifs) in 4 assignment forms within a macro, a macro whose outer value changes after declaration, a call block in a loop and a macro in a macro, and reads it inside and after the construct. The loop object clause prints every field in every iteration for 11 sequence kinds (list, tuple, map keys, items, range, lazy iterable, string, reversed, sliced, |list, filtered loop) x lengths 0..4 against directly computed values.",
         note="R is the trusted base; every disagreement was triaged by hand (three engine defects fixed, two gaps in R closed). R deliberately leaves undefined: includes/blocks, `set` in a for-else body read afterwards, macro defaults referring to parameters, conditional expressions; such programs are reported as 'outside R'.",
         design_ref="2/C03",
     ),
@@ -53,7 +61,7 @@ CHECKS = {
         level="exploration",
         engine="E5-crash",
         technique="bounded-exhaustive enumeration of recursive program shapes x recursion limits x stack sizes x build profiles with a process-level oracle in supervised child processes",
-        text="Recursive shapes are enumerated combinatorially: every macro cycle of length 1..2 (thorough 3) whose every edge is wrapped by one of 8 scoped constructs, x 3 per-frame work decorations; every include cycle of length 1..2 (3) over 5 placements; import cycles at top level, inside macros and through macro+include+import; recursive loops over 10 000-deep data, self-similar data and inside macros; super() chains of 10..1200 templates; block self-calls (direct, mutual, through a macro) and caller/higher-order/alias/default-argument/nested-definition recursion. Each shape runs with recursion_limit in {1,2,3,7,50,250,499,500} on a 2 MiB thread and on the main thread of an opt-level-0 build (thorough: also the checked-release build and every limit 1..=500 for the smaller families, 1.7e5 cases). Unbounded shapes must end with an error whose chain says 'recursion limit exceeded'; no case may end in a signal, abort, panic or hang.",
+        text="Recursive shapes are enumerated combinatorially: every macro cycle of length 1..2 (thorough 3) whose every edge is wrapped by one of 8 scoped constructs, x 3 per-frame work decorations, x 7 things a frame does and gets back from before it recurses (nothing, a helper macro call, one on every other frame, a finished call block, an include, an imported helper, filters and tests); every include cycle of length 1..2 (3) over 5 placements; import cycles at top level, inside macros and through macro+include+import; recursive loops over 10 000-deep data, self-similar data and inside macros; super() chains of 10..1200 templates; block self-calls (direct, mutual, through a macro) and caller/higher-order/alias/default-argument/nested-definition recursion. Each shape runs with recursion_limit in {1,2,3,7,50,250,499,500} on a 2 MiB thread and on the main thread of an opt-level-0 build (thorough: also the checked-release build and every limit 1..=500 for the smaller families, 1.7e5 cases). Unbounded shapes must end with an error whose chain says 'recursion limit exceeded'; no case may end in a signal, abort, panic or hang.",
         note="Per-level native stack cost depends on the compiler and profile: the statement is re-established for this toolchain's opt-level-0 and release builds. The 10 000-deep context value is leaked, not dropped (host drop glue recursion is not the engine's).",
         design_ref="2/C11",
     ),
@@ -61,15 +69,15 @@ CHECKS = {
         level="exploration",
         engine="E5-crash",
         technique="bounded-exhaustive enumeration of ranked input spaces with a process-level crash oracle in supervised child processes (rlimits, panic capture, death attribution)",
-        text="Six ranked families are enumerated completely inside their bounds, each case = load + render + formatting the error in five forms, in child processes under RLIMIT_AS with panics caught and aborts/signals attributed to the exact case: every string of up to 4 (thorough 5) fragments over a 24-fragment delimiter/quote/escape alphabet as template and as expression; every sequence of up to 3 (4) tags over 38 tags; every built-in and contrib filter/test/method x 8 receivers and every function x every argument tuple of arity <= 2 (3) over a 14-value boundary alphabet; 12 operators and 11 size-taking built-ins over all pairs of the edge value alphabet; 31 chain/nesting shapes at depths 150/151/2000/20000/200000 on the main thread and a 2 MiB thread in an opt-level-0 build (thorough also checked-release); every program of the depth-2 generator space with loop controls. 1.3e6 cases quick.",
-        note="A timeout is recorded as inconclusive, never as a crash. Native-stack findings for unguarded chain recursion, self-referential namespaces and very deep data are recorded known findings. Inputs beyond the fragment/arity bounds and argument values off the boundary alphabet are not explored.",
+        text="Six ranked families are enumerated completely inside their bounds, each case = load + render + formatting the error in five forms, in child processes under RLIMIT_AS with panics caught and aborts/signals attributed to the exact case: every string of up to 4 (thorough 5) fragments over a 24-fragment delimiter/quote/escape alphabet as template and as expression; every sequence of up to 3 (4) tags over 38 tags; every built-in and contrib filter/test/method x 8 receivers and every function x every argument tuple of arity <= 2 (3) over a 14-value boundary alphabet; 12 operators and 11 size-taking built-ins over all pairs of the edge value alphabet; 31 chain/nesting shapes at depths 150/151/2000/20000/200000 on the main thread and a 2 MiB thread in an opt-level-0 build (thorough also checked-release); every program of the depth-2 generator space with loop controls; 22 run-time value chains (a loop applies one lazy wrapping step - concatenation on either side, chain, slice, reverse, map, select, unique, dict merge, string and tuple concatenation, batch, zip - to an accumulator 33 / 1000 / 30 000 times, then the result is measured, iterated, compared, printed and dropped) in both builds. 1.3e6 cases quick.",
+        note="A timeout is recorded as inconclusive, never as a crash. Native-stack findings for unguarded chain recursion, self-referential namespaces, very deep data and repeated lazy slicing are recorded known findings. Inputs beyond the fragment/arity bounds and argument values off the boundary alphabet are not explored.",
         design_ref="2/C01",
     ),
     "C16": dict(
         level="exploration",
         engine="E1-enum",
         technique="bounded-exhaustive enumeration of monomorphic serde types x per-leaf edge alphabets (round trip), of edge values x embedding routes (identity), and of short strings over a JSON/HTML-critical alphabet (tojson parse-back)",
-        text="Typed round trip T::deserialize(Value::from(Serde(&x))) == x for 14 leaf types x 20 container shapes (Option, Vec, tuples, arrays, maps keyed by String/i64/u64/bool, newtype/tuple/field structs, every enum variant shape) plus 14 depth-2 shapes for representative leaves, over per-leaf boundary values (MIN/MAX, 2^53, 2^63, subnormals, infinities, NUL and non-BMP characters, the value-handle marker string). Every value of the edge alphabet (safe strings, undefined, 128-bit integers, NaN, bytes, lists, tuples, lazy iterables, maps, plain objects, invalid values) embedded through 8 routes must come back with the same kind, flags and object identity, and a failing serialisation must leave no residue. All strings up to length 3 (thorough 4) over 16 critical characters and all edge values (bare, nested, as map keys) go through tojson in .txt/.html templates, tojson(indent) and JSON auto-escaping; the output is parsed with serde_json and compared with the expected JSON value, and must not contain < > & '.",
+        text="Typed round trip T::deserialize(Value::from(Serde(&x))) == x for 14 leaf types x 20 container shapes (Option, Vec, tuples, arrays, maps keyed by String/i64/u64/bool, newtype/tuple/field structs, every enum variant shape) plus 14 depth-2 shapes for representative leaves, over per-leaf boundary values (MIN/MAX, 2^53, 2^63, subnormals, infinities, NUL and non-BMP characters, the value-handle marker string). Every value of the edge alphabet (safe strings, undefined, 128-bit integers, NaN, bytes, lists, tuples, lazy iterables, maps, plain objects, invalid values) embedded through 15 routes (7 of them through host Serialize impls that run a nested conversion before, around or after the value) must come back with the same kind, flags and object identity; a failing serialisation must leave no residue; and every history of up to 3 (thorough 5) conversions out of {plain, nested, failing, nested failing, panicking after a nested one, JSON serialisation outside a conversion} must leave the thread-local conversion flag clean after every step. All strings up to length 3 (thorough 4) over 16 critical characters and all edge values (bare, nested, as map keys) go through tojson in .txt/.html templates, tojson(indent) and JSON auto-escaping; the output is parsed with serde_json and compared with the expected JSON value, and must not contain < > & '.",
         note="serde_json is the independent JSON parser. Errors are accepted only for maps whose keys JSON cannot carry (none, sequences, non-finite floats) and invalid values. Safe strings are passed through by JSON auto-escaping by design and carry no expectation there. The value-handle registry itself is not inspectable (no hook yet).",
         design_ref="2/C16",
     ),
